@@ -64,7 +64,7 @@ MODE_KW = {
     'cache+eager': {'lazyLoad': False, 'use_cache': True},
 }
 CACHE_MODES = ('cache', 'cache+eager')
-SELECTS = (None, ('S1', 'S2'), ('S1',))
+SELECTS = (None, (G.S1, G.S2), (G.S1,), (G.S1, G.S3))
 IGNORES = (None, (('C', 'T'), ('G', 'A')))
 PHASED = (True, False)
 FIRSTS = ('g', 'h')          # g: getAllelesAt touches the contig first, h: has_location does
@@ -73,7 +73,7 @@ NODIR = ('<no cache directory>',)
 
 
 def bounds(tier):
-    b = {'modes': list(MODES), 'select_samples': [None, ['S1', 'S2'], ['S1']],
+    b = {'modes': list(MODES), 'select_samples': [None, ['S1', 'S2'], ['S1'], ['S1', 'S3']], 'sample_names': 'about 70 characters each; S2 and S3 share their first 57',
          'ignore_conversions': [None, [['C', 'T'], ['G', 'A']]], 'phased': [True, False],
          'first_operation': ['getAllelesAt', 'has_location'], 'access_symbols': list(SYMBOLS),
          'vcf': {'samples': 3, 'contigs_with_records': 3, 'site_classes_per_contig': len(G.TEMPLATE)},
